@@ -310,6 +310,22 @@ Section JwtProofs.
     apply app_inv_head in E. congruence.
   Qed.
 
+  (** The premise a MAC is used for, for token texts: the presented text does
+      not carry a valid MAC over first segments that were never signed. *)
+  Definition jwt_no_forgery (k : K) (issued : list bytes) (tok : bytes) : Prop :=
+    forall hb cb, tok = jwt_sign k hb cb -> In (jwt_text hb cb) issued.
+
+  (** Every text other than the issued token (any flip, truncation, extension,
+      re-encoding, header rewrite): rejected, unless it carries a forged MAC. *)
+  Theorem hs_mutant_rejected k pin now p0 tok :
+    jwt_no_forgery k [p0] tok -> tok <> p0 ++ dot :: b64_encode (mac k p0) ->
+    is_err (hs_verify k pin now tok).
+  Proof.
+    intros F N. destruct (hs_verify k pin now tok) as [t|] eqn:A; [|exact I]. exfalso.
+    apply hs_verify_iff in A. destruct A as (hb & cb & _ & _ & E & _).
+    destruct (F hb cb E) as [Q|[]]. apply N. rewrite E. unfold Jwt.jwt_sign. now rewrite <- Q.
+  Qed.
+
   (** Under the second-preimage idealisation for the signed text of the issued
       token: the issued signature segment under any other first two segments is
       rejected. *)
